@@ -1,7 +1,6 @@
 package facts
 
 import (
-	"fmt"
 	"go/ast"
 	"go/token"
 	"os"
@@ -206,7 +205,8 @@ func extractProcess(f *Facts) {
 
 	// ---- package-level variables of the library packages (mutable globals would be process history)
 	var vars []string
-	for _, dir := range []string{"core", "core/cachestub", "core/config", "core/balance", "core/ledger", "core/swap", "core/multiswap", "core/cctransfer", "core/helpers", "core/types", "core/types/big", "core/routing/reflect", "core/logger", "token", "keys", "hlfcreator"} {
+	varDirs := []string{"core", "core/cachestub", "core/config", "core/balance", "core/ledger", "core/swap", "core/multiswap", "core/cctransfer", "core/helpers", "core/types", "core/types/big", "core/routing/reflect", "core/logger", "token", "keys", "hlfcreator"}
+	for _, dir := range varDirs {
 		entries, err := os.ReadDir(filepath.Join(f.repo, dir))
 		if err != nil {
 			continue
@@ -248,6 +248,94 @@ func extractProcess(f *Facts) {
 	}
 	sort.Strings(vars)
 	f.Lists["packageVars"] = vars
+	// ... and those of them that the package ever writes after their declaration: assigned,
+	// incremented, address taken, or used as the receiver of a method that is not a plain reader.
+	// Only these can carry state from one invocation to the next.
+	written := map[string]bool{}
+	readers := map[string]bool{"Cmp": true, "Sign": true, "String": true, "Bytes": true, "Int64": true, "Uint64": true,
+		"IsInt64": true, "IsUint64": true, "BitLen": true, "Text": true, "Error": true, "MatchString": true, "Match": true,
+		"FindStringSubmatch": true, "Len": true}
+	for _, dir := range varDirs {
+		names := map[string]bool{}
+		for _, v := range vars {
+			if strings.HasPrefix(v, dir+".") && !strings.Contains(v[len(dir)+1:], ".") {
+				names[v[len(dir)+1:]] = true
+			}
+		}
+		if len(names) == 0 {
+			continue
+		}
+		root := func(e ast.Expr) string {
+			for {
+				switch x := e.(type) {
+				case *ast.Ident:
+					return x.Name
+				case *ast.SelectorExpr:
+					e = x.X
+				case *ast.IndexExpr:
+					e = x.X
+				case *ast.StarExpr:
+					e = x.X
+				case *ast.ParenExpr:
+					e = x.X
+				default:
+					return ""
+				}
+			}
+		}
+		entries, _ := os.ReadDir(filepath.Join(f.repo, dir))
+		for _, e := range entries {
+			n := e.Name()
+			if e.IsDir() || !strings.HasSuffix(n, ".go") || strings.HasSuffix(n, "_test.go") || n == "verif_export.go" {
+				continue
+			}
+			a := f.File(filepath.Join(dir, n))
+			if a == nil {
+				continue
+			}
+			for _, d := range a.Decls {
+				fd, ok := d.(*ast.FuncDecl)
+				if !ok || fd.Body == nil {
+					continue
+				}
+				ast.Inspect(fd.Body, func(x ast.Node) bool {
+					switch y := x.(type) {
+					case *ast.AssignStmt:
+						if y.Tok != token.DEFINE {
+							for _, l := range y.Lhs {
+								if r := root(l); names[r] {
+									written[dir+"."+r] = true
+								}
+							}
+						}
+					case *ast.IncDecStmt:
+						if r := root(y.X); names[r] {
+							written[dir+"."+r] = true
+						}
+					case *ast.UnaryExpr:
+						if y.Op == token.AND {
+							if r := root(y.X); names[r] {
+								written[dir+"."+r] = true
+							}
+						}
+					case *ast.CallExpr:
+						if se, ok := y.Fun.(*ast.SelectorExpr); ok {
+							if id, ok := se.X.(*ast.Ident); ok && names[id.Name] && !readers[se.Sel.Name] {
+								written[dir+"."+id.Name] = true
+							}
+						}
+					}
+					return true
+				})
+			}
+		}
+	}
+	var wr []string
+	for v := range written {
+		wr = append(wr, v)
+	}
+	sort.Strings(wr)
+	f.Lists["packageVarsWritten"] = wr
 }
 
 func exprName(e ast.Expr) string {
@@ -334,7 +422,7 @@ func extractEnvFacts(f *Facts) {
 				if sets != defers {
 					f.fail("%s: %s installs a context %d times but defers its removal %d times", rel, fd.Name.Name, sets, defers)
 				}
-				sites = append(sites, fmt.Sprintf("%s:%d", fd.Name.Name, sets))
+				sites = append(sites, fd.Name.Name) // (how many cases of the function install one is not a fact the model uses)
 			}
 		}
 	}
